@@ -591,7 +591,10 @@ def gen_edges(ctx, T, n):
     rng = ctx.rng
     els = T["E"][1:]
     cases = []
-    tiny = [Decimal(0), Decimal("1e-12"), Decimal("-1e-12"), Decimal("1e-10"), Decimal("-1e-10")]
+    # on the edge, a few ulps off it, and 1e-9 .. 2e-5 either side (a window widened or narrowed by a "round-off allowance"
+    # in only one of offer_mass_value / offer_mass_number shows as a model disagreement and as a failed feedback)
+    tiny = [Decimal(0), Decimal("1e-12"), Decimal("-1e-12"), Decimal("1e-10"), Decimal("-1e-10"), Decimal("1e-9"), Decimal("-1e-9"),
+            Decimal("1e-6"), Decimal("-1e-6"), Decimal("5e-6"), Decimal("1e-5"), Decimal("-1e-5"), Decimal("2e-5")]
     while len(cases) < n:
         el = rng.choice(els)
         iso = T["iso"][el]
@@ -750,6 +753,29 @@ def history_stream(ctx, T, corr):
             prefix.append(repr(sp))
     clear()
     corr.hit("history_cache_hits", hits[0])
+    # eviction: more distinct keys than maxsize, then the evicted and the surviving queries again
+    probe = rng.sample(list(range(len(base))), min(40, len(base)))
+    prefix_ev = ["cache_clear"]
+    for i in probe:
+        _run_kw(base[i])
+        prefix_ev.append(repr(base[i]))
+    filler = 0
+    for z in range(1, 118):
+        for dm in (0.0, 0.25, 0.5, 0.75, 1.0, 1.25):
+            kw = dict(Z=z, mass=float(T["ea2massstr"][T["z2e"][z]]) + dm, nonphysical=True)
+            _run_kw(kw)
+            prefix_ev.append(repr(kw))
+            filler += 1
+    for i in probe + probe[:10]:
+        got = _run_kw(base[i])
+        corr.count("history")
+        prefix_ev.append(repr(base[i]))
+        if got != reference[i]:
+            corr.failures.append({"stream": "history", "case": {"call": repr(base[i]), "canonical": repr(base[i]), "round": "eviction", "prefix": list(prefix_ev)},
+                                  "what": "answer changes after the entry was evicted from / refreshed in the result cache",
+                                  "observed": [repr(reference[i]), repr(got)]})
+    corr.hit("history_eviction_filler_calls", filler)
+    clear()
 
 
 def verbose_stream(ctx, T, corr, cases):
@@ -988,14 +1014,26 @@ LEVEL_TEXT = (
     "nuclide' and 'physical range' mean in terms of the shipped arrays), C06_default_isotope, C06_fails_closed (only ValidationError / "
     "NotAnElementError), C06_contradiction_rejected (nine contradiction forms), C06_feedback_fixed_point (for every 0 <= mtol <= 1/4, "
     "window edges included since the repair af456dc of the fixed finding C06-mtol-boundary-feedback, whose failing input stays in the "
-    "corpus and as a Coq Example), C06_parse_label_sound / _complete (the "
-    "recogniser accepts exactly the strings of an inductive label grammar and returns its fields). The model is tied to nucleus.py, "
+    "corpus and as a Coq Example), C06_parse_label_spec (parse_label s = Ok f <-> "
+    "Label s f: exactly the strings of an inductive label grammar, exactly its fields), C06_label_unambiguous, C06_parse_label_refuses, "
+    "C06_parse_label_sound / _complete (the two halves), C06_not_an_element_only_for_unknown_names and "
+    "C06_contradiction_is_validation_error (error class: NotAnElementError only when a clue names an element or nuclide that is not "
+    "tabulated; contradictions among tabulated names raise ValidationError), C06_history_independent (a Coq model of the lru_cache "
+    "wrapper, maxsize 512, exceptions uncached, LRU eviction, cache_clear: every answer in every history equals the uncached answer). The model is tied to nucleus.py, "
     "regex.py and periodic_table.py on every run by differential execution: every element x random isotope x random clue subsets x "
     "consistent / one conflicting clue x label spellings x settings (exact comparison, masses as decimals), label strings (valid, "
     "near-valid, random over the grammar's alphabet) through parse_nucleus_label vs re, window-edge masses by three-point comparison, "
-    "and on the implementation alone: the property oracle incl. feedback, a call-history stream (permuted orders, 1/1.0/True key "
-    "collisions in the lru_cache, cache_clear on/off) and a verbose-level stream.")
+    "(on the edge, a few ulps and 1e-9..2e-5 either side), and on the implementation alone: the property oracle incl. feedback, a "
+    "call-history stream (permuted orders, 1/1.0/True key collisions in the lru_cache, cache_clear on/off, eviction beyond maxsize) "
+    "and a verbose-level stream.")
 LEVEL_NOTE = (
+    "Clause map (full text at the top of coq/Props/C06.v): table/clue agreement, nuclide-or--1, physical range, ghost/user tag -> "
+    "C06_sound (+ _nuclide_key_is_table_row, _mass_range_meaning); default isotope -> C06_default_isotope; contradictions refused -> "
+    "C06_contradiction_rejected, class -> C06_contradiction_is_validation_error / C06_not_an_element_only_for_unknown_names / "
+    "C06_fails_closed; history independence -> C06_history_independent (model of the cache) + history stream on the implementation; "
+    "feedback -> C06_feedback_fixed_point (mtol <= 1/4); label grammar -> C06_parse_label_spec / _label_unambiguous / _refuses. "
+    "The cache theorem assumes equal keys denote the same typed call (1 == 1.0 == True collisions are exercised on the "
+    "implementation only). "
     "Trusted: Coq kernel + vm_compute; the hand-written model (ASCII text; E argument over letters and digits; integer A/Z; finite "
     "masses as exact rationals — binary64 rounding in the implementation is not modelled, so inputs within 1e-9 of a decision edge are "
     "compared three-point only); harness/translate/ptable.py; CPython re/int/float/round/str and functools.lru_cache are modelled or "
